@@ -581,3 +581,442 @@ func (c *Ctx) ruleNoFloatInt() {
 	}
 	c.ob("R-NOFLOATINT", "big.NewInt-sites-examined", token.NoPos, n > 0, fmt.Sprintf("%d big.NewInt calls examined", n))
 }
+
+// R-VALIDBEFOREEQV (C21): only a valid vote can make its sender an equivocator.
+func (c *Ctx) ruleValidBeforeEquivocation() {
+	c.doc("R-VALIDBEFOREEQV", gDir+" validateVoteMessage: checkAndReportEquivocation runs only on the success edge of validateVote (block known, hash/number agree, descends from the finalised head): a malformed second vote must not turn its sender into an equivocator that counts for every block")
+	f := c.fn(gDir, "(*Service).validateVoteMessage")
+	if f == nil {
+		c.unresolved("(*Service).validateVoteMessage")
+		return
+	}
+	var validate, eqv *ssa.Call
+	eachInstr(f, func(_ *ssa.BasicBlock, _ int, in ssa.Instruction) {
+		if call, ok := in.(*ssa.Call); ok && call.Call.StaticCallee() != nil {
+			switch call.Call.StaticCallee().Name() {
+			case "validateVote":
+				validate = call
+			case "checkAndReportEquivocation":
+				eqv = call
+			}
+		}
+	})
+	if validate == nil || eqv == nil {
+		c.unresolved("validateVote / checkAndReportEquivocation calls in validateVoteMessage")
+		return
+	}
+	ok := guardedBy(eqv.Block(), func(cond ssa.Value, truth bool) bool {
+		e, neq, isNil := nilCmp(cond)
+		return isNil && e == ssa.Value(validate) && truth != neq
+	})
+	c.ob("R-VALIDBEFOREEQV", "validateVoteMessage:equivocation-check-after-validation", eqv.Pos(), ok, "checkAndReportEquivocation is reachable without validateVote having returned nil")
+}
+
+// R-PHASECONSIST (C22, C20): one closure, one phase.
+func (c *Ctx) rulePhaseConsistent() {
+	c.doc("R-PHASECONSIST", fgDir+" round.go: within one function or closure every phase constant handed to the context's Weight / EquivocationWeight is the same phase: the completability test mixes precommit weights with the precommit equivocators, never with the prevote ones")
+	sp := c.ssaPkg(fgDir)
+	if sp == nil {
+		return
+	}
+	n := 0
+	for _, f := range allFuncs(c, sp) {
+		if !strings.HasSuffix(c.prog.Fset.Position(f.Pos()).Filename, "round.go") {
+			continue
+		}
+		phases := map[int64]token.Pos{}
+		eachInstr(f, func(_ *ssa.BasicBlock, _ int, in ssa.Instruction) {
+			call, ok := in.(*ssa.Call)
+			if !ok {
+				return
+			}
+			cal := call.Call.StaticCallee()
+			if cal == nil {
+				return
+			}
+			name := cal.Name()
+			if i := strings.Index(name, "["); i > 0 {
+				name = name[:i]
+			}
+			if name != "Weight" && name != "EquivocationWeight" {
+				return
+			}
+			for _, a := range call.Call.Args {
+				if k, isC := a.(*ssa.Const); isC && strings.HasSuffix(a.Type().String(), "Phase") {
+					if v, ok := constInt(k); ok {
+						phases[v] = call.Pos()
+					}
+				}
+			}
+		})
+		if len(phases) == 0 {
+			continue
+		}
+		n++
+		c.ob("R-PHASECONSIST", relName(f.String())+":single-phase", f.Pos(), len(phases) == 1, fmt.Sprintf("%d different phases are queried in one function", len(phases)))
+	}
+	if n == 0 {
+		c.unresolved("Weight/EquivocationWeight calls with a phase constant in round.go")
+	}
+}
+
+// R-NOINPLACEFILTER (C23): a digest list filtered in place is not also returned unfiltered.
+func (c *Ctx) ruleNoInPlaceFilter() {
+	dir := "dot/digest"
+	c.doc("R-NOINPLACEFILTER", dir+": a function that builds a filtered list by appending onto param[:0] (sharing the parameter's backing array) never returns or hands on the parameter itself: after the in-place filtering the original list has lost the filtered-out elements' successors' positions (a scheduled change followed by another digest disappears and the last digest is handled twice)")
+	sp := c.ssaPkg(dir)
+	if sp == nil {
+		return
+	}
+	n := 0
+	for _, f := range allFuncs(c, sp) {
+		for _, p := range f.Params {
+			if _, ok := p.Type().Underlying().(*types.Slice); !ok {
+				continue
+			}
+			n++
+			inplace := false
+			for _, r := range *p.Referrers() {
+				sl, ok := r.(*ssa.Slice)
+				if !ok || sl.X != ssa.Value(p) || sl.Low != nil {
+					continue
+				}
+				if k, isC := constInt(sl.High); !isC || k != 0 {
+					continue
+				}
+				// param[:0] flowing into an append
+				for v := range forwardValues(sl) {
+					if call, ok := v.(*ssa.Call); ok && calleeName(&call.Call) == "builtin.append" {
+						inplace = true
+					}
+				}
+			}
+			if !inplace {
+				continue
+			}
+			reused := ""
+			for _, r := range *p.Referrers() {
+				switch x := r.(type) {
+				case *ssa.Return:
+					reused = c.pos(x.Pos())
+				case *ssa.Call:
+					if calleeName(&x.Call) != "builtin.len" && calleeName(&x.Call) != "builtin.cap" {
+						reused = c.pos(x.Pos())
+					}
+				case *ssa.Phi:
+					reused = c.pos(x.Pos())
+				}
+			}
+			c.ob("R-NOINPLACEFILTER", relName(f.String())+":"+p.Name()+"-filtered-in-place", f.Pos(), reused == "", "the parameter is filtered in place (append onto "+p.Name()+"[:0]) and also used unfiltered at "+reused)
+		}
+	}
+	c.ob("R-NOINPLACEFILTER", "slice-parameters-examined", token.NoPos, n > 0, fmt.Sprintf("%d slice parameters examined", n))
+}
+
+// forwardValues: values derived from v through φ, append (as base), slice and conversions.
+func forwardValues(v ssa.Value) map[ssa.Value]bool {
+	seen := map[ssa.Value]bool{v: true}
+	work := []ssa.Value{v}
+	for len(work) > 0 {
+		x := work[len(work)-1]
+		work = work[:len(work)-1]
+		if x.Referrers() == nil {
+			continue
+		}
+		for _, r := range *x.Referrers() {
+			var nv ssa.Value
+			switch y := r.(type) {
+			case *ssa.Phi:
+				nv = y
+			case *ssa.Call:
+				if calleeName(&y.Call) == "builtin.append" && len(y.Call.Args) > 0 && y.Call.Args[0] == x {
+					nv = y
+				}
+			case *ssa.Slice:
+				nv = y
+			case *ssa.ChangeType:
+				nv = y
+			}
+			if nv != nil && !seen[nv] {
+				seen[nv] = true
+				work = append(work, nv)
+			}
+		}
+	}
+	return seen
+}
+
+// R-ERRWRAP (C26 and the packages its lookups run through): the error that is wrapped is the error that was tested.
+func (c *Ctx) ruleErrWrap(dirs ...string) {
+	c.doc("R-ERRWRAP", strings.Join(dirs, ", ")+": in a block entered because an error value e is non-nil, a returned fmt.Errorf(... %w ...) wraps e and not a different error value that is live at that point: callers dispatch on the wrapped sentinel with errors.Is (findAncestor skips an announcing block only on database.ErrNotFound)")
+	n := 0
+	for _, dir := range dirs {
+		sp := c.ssaPkg(dir)
+		if sp == nil {
+			continue
+		}
+		for _, f := range allFuncs(c, sp) {
+			ord := 0
+			eachInstr(f, func(b *ssa.BasicBlock, _ int, in ssa.Instruction) {
+				call, ok := in.(*ssa.Call)
+				if !ok || calleeName(&call.Call) != "fmt.Errorf" {
+					return
+				}
+				// error-typed operands of the varargs
+				var wrapped []ssa.Value
+				if len(call.Call.Args) == 2 {
+					if sl, ok := call.Call.Args[1].(*ssa.Slice); ok {
+						if al, ok := sl.X.(*ssa.Alloc); ok {
+							for _, r := range *al.Referrers() {
+								ia, ok := r.(*ssa.IndexAddr)
+								if !ok {
+									continue
+								}
+								for _, r2 := range *ia.Referrers() {
+									if st, ok := r2.(*ssa.Store); ok {
+										if mi, ok := st.Val.(*ssa.MakeInterface); ok && types.Identical(mi.X.Type(), types.Universe.Lookup("error").Type()) {
+											wrapped = append(wrapped, mi.X)
+										} else if ct, ok := st.Val.(*ssa.ChangeInterface); ok && types.Identical(ct.X.Type(), types.Universe.Lookup("error").Type()) {
+											wrapped = append(wrapped, ct.X)
+										}
+									}
+								}
+							}
+						}
+					}
+				}
+				if len(wrapped) == 0 {
+					return
+				}
+				// the innermost guard `e != nil` dominating this block
+				var tested ssa.Value
+				for d := b; d != nil; d = d.Idom() {
+					if id := d.Idom(); id != nil {
+						if iff := ifOf(id); iff != nil && len(id.Succs) == 2 && id.Succs[0] == d && id.Succs[1] != d {
+							if e, neq, ok := nilCmp(iff.Cond); ok && neq && types.Identical(e.Type(), types.Universe.Lookup("error").Type()) {
+								tested = e
+								break
+							}
+						}
+					}
+				}
+				if tested == nil {
+					return
+				}
+				n++
+				good := false
+				other := false
+				for _, w := range wrapped {
+					if w == tested || sameValue(w, tested) {
+						good = true
+					} else if _, isCall := stripExtract(w).(*ssa.Call); isCall {
+						other = true
+					}
+				}
+				if good || !other {
+					return
+				}
+				ord++
+				c.ob("R-ERRWRAP", fmt.Sprintf("%s:wraps-other-error#%d", relName(f.String()), ord), call.Pos(), false,
+					shortFn(f)+" is in the branch of one failed call and wraps the error of a different call")
+			})
+		}
+	}
+	c.ob("R-ERRWRAP", "wrap-sites-examined", token.NoPos, n > 0, fmt.Sprintf("%d guarded wrap sites examined", n))
+}
+
+func stripExtract(v ssa.Value) ssa.Value {
+	if ex, ok := v.(*ssa.Extract); ok {
+		return ex.Tuple
+	}
+	return v
+}
+
+// R-EARLYOUT (C27): a header is left unrecorded only when the clock is behind the table, or when it is already there.
+func (c *Ctx) ruleEquivocationEarlyOut() {
+	c.doc("R-EARLYOUT", stateDir+" CheckEquivocation: a `no proof` return that is not preceded by recording the header is either the direct true edge of `slotNow < firstSavedSlot` (a comparison of the CLOCK parameter, not of the header's slot, and not one arm of a disjunction) or the duplicate-header return inside the scan of the stored headers: a header of an old slot inside the window must still be compared and recorded")
+	f := c.fn(stateDir, "(*SlotState).CheckEquivocation")
+	if f == nil {
+		c.unresolved("(*SlotState).CheckEquivocation")
+		return
+	}
+	if len(f.Params) < 3 {
+		c.unresolved("parameters of CheckEquivocation")
+		return
+	}
+	slotNow := ssa.Value(f.Params[1])
+	var puts []ssa.Instruction
+	eachInstr(f, func(_ *ssa.BasicBlock, _ int, in ssa.Instruction) {
+		if call, ok := in.(*ssa.Call); ok && call.Call.IsInvoke() && call.Call.Method.Name() == "Put" {
+			puts = append(puts, call)
+		}
+	})
+	loops := loopsOf(f)
+	n := 0
+	for _, r := range returnsOf(f) {
+		if len(r.Results) != 2 || !isNilConst(resultOf(r, 0)) || !isNilConst(resultOf(r, 1)) {
+			continue
+		}
+		recorded := false
+		for _, p := range puts {
+			if instrReaches(p, r) {
+				recorded = true
+			}
+		}
+		if recorded {
+			continue
+		}
+		n++
+		b := r.Block()
+		clock := false
+		if len(b.Preds) == 1 {
+			if iff := ifOf(b.Preds[0]); iff != nil && b.Preds[0].Succs[0] == b {
+				if bo, ok := iff.Cond.(*ssa.BinOp); ok && ((bo.Op == token.LSS && bo.X == slotNow) || (bo.Op == token.GTR && bo.Y == slotNow)) {
+					clock = true
+				}
+			}
+		}
+		dup := inLoop(b)
+		for _, l := range loops {
+			if l[b] {
+				dup = true
+			}
+		}
+		// the capacity window: saturating (slotNow - slot) compared with a constant
+		if len(b.Preds) == 1 {
+			if iff := ifOf(b.Preds[0]); iff != nil && b.Preds[0].Succs[0] == b {
+				if bo, ok := iff.Cond.(*ssa.BinOp); ok && bo.Op == token.GTR {
+					if call, ok := bo.X.(*ssa.Call); ok && call.Call.StaticCallee() != nil && strings.HasPrefix(call.Call.StaticCallee().Name(), "SaturatingSub") && len(call.Call.Args) == 2 && call.Call.Args[0] == slotNow {
+						if _, isC := constInt(bo.Y); isC {
+							clock = true
+						}
+					}
+				}
+			}
+		}
+		c.ob("R-EARLYOUT", fmt.Sprintf("CheckEquivocation:unrecorded-return#%d", n), r.Pos(), clock || dup,
+			"this return leaves the header unrecorded and uncompared on a condition other than `slotNow < firstSavedSlot` or a duplicate header")
+	}
+	if n == 0 {
+		c.unresolved("early returns of CheckEquivocation")
+	}
+}
+
+// R-RECIDONCE (C29): the recovery byte is normalised once.
+func (c *Ctx) ruleRecIDOnce() {
+	dir := "lib/crypto/secp256k1"
+	c.doc("R-RECIDONCE", dir+": a function that rewrites the recovery byte of a signature (sig[64] -= 27) does not hand the same slice to another function of the package that rewrites it again: 54..57 would become 0..3 and recover a key where the reference fails")
+	sp := c.ssaPkg(dir)
+	if sp == nil {
+		return
+	}
+	normalises := func(f *ssa.Function) (ssa.Value, bool) {
+		var sig ssa.Value
+		eachInstr(f, func(_ *ssa.BasicBlock, _ int, in ssa.Instruction) {
+			st, ok := in.(*ssa.Store)
+			if !ok {
+				return
+			}
+			ia, ok := st.Addr.(*ssa.IndexAddr)
+			if !ok {
+				return
+			}
+			if k, isC := constInt(ia.Index); !isC || k != 64 {
+				return
+			}
+			if bo, ok := st.Val.(*ssa.BinOp); ok && bo.Op == token.SUB {
+				if _, isP := ia.X.(*ssa.Parameter); isP {
+					sig = ia.X
+				}
+			}
+		})
+		return sig, sig != nil
+	}
+	n := 0
+	for _, f := range allFuncs(c, sp) {
+		sig, ok := normalises(f)
+		if !ok {
+			continue
+		}
+		n++
+		bad := ""
+		eachInstr(f, func(_ *ssa.BasicBlock, _ int, in ssa.Instruction) {
+			call, ok := in.(*ssa.Call)
+			if !ok || call.Call.StaticCallee() == nil || call.Call.StaticCallee().Pkg != sp {
+				return
+			}
+			g := call.Call.StaticCallee()
+			gsig, gok := normalises(g)
+			if !gok {
+				return
+			}
+			for i, a := range call.Call.Args {
+				if a == sig && i < len(g.Params) && ssa.Value(g.Params[i]) == gsig {
+					bad = g.Name()
+				}
+			}
+		})
+		c.ob("R-RECIDONCE", relName(f.String())+":normalises-once", f.Pos(), bad == "", "the recovery byte is rewritten here and again in "+bad+", which receives the same slice")
+	}
+	if n == 0 {
+		c.unresolved("recovery-byte normalisation in " + dir)
+	}
+}
+
+// R-INSERTFRESH (C30): inserting a peer never resets the state of a peer that is already known.
+func (c *Ctx) ruleInsertFresh() {
+	c.doc("R-INSERTFRESH", psDir+" PeersState.insertPeer: the membership state is written only into the node created in this call (newNode), never into a node found in the table: addReservedPeers calls insertPeer for peers that may be connected, and resetting a connected peer to notConnected leaks its slot")
+	f := c.fn(psDir, "(*PeersState).insertPeer")
+	if f == nil {
+		c.unresolved("(*PeersState).insertPeer")
+		return
+	}
+	n := 0
+	bad := ""
+	eachInstr(f, func(_ *ssa.BasicBlock, _ int, in ssa.Instruction) {
+		st, ok := in.(*ssa.Store)
+		if !ok {
+			return
+		}
+		ia, ok := st.Addr.(*ssa.IndexAddr)
+		if !ok {
+			return
+		}
+		_, fv, ok := fieldLoad(ia.X)
+		if !ok || fv == nil || fv.Name() != "state" {
+			return
+		}
+		n++
+		base, _, _ := fieldLoad(ia.X)
+		seen := map[ssa.Value]bool{}
+		var walk func(v ssa.Value)
+		walk = func(v ssa.Value) {
+			if v == nil || seen[v] || bad != "" {
+				return
+			}
+			seen[v] = true
+			switch x := v.(type) {
+			case *ssa.Call:
+				if x.Call.StaticCallee() == nil || x.Call.StaticCallee().Name() != "newNode" {
+					bad = "the result of " + calleeName(&x.Call)
+				}
+			case *ssa.Phi:
+				for _, e := range x.Edges {
+					walk(e)
+				}
+			case *ssa.Extract:
+				if _, isLookup := x.Tuple.(*ssa.Lookup); isLookup {
+					bad = "a node found in the table"
+					return
+				}
+				walk(x.Tuple)
+			case *ssa.Lookup:
+				bad = "a node found in the table"
+			default:
+				bad = v.String()
+			}
+		}
+		walk(base)
+	})
+	c.ob("R-INSERTFRESH", "insertPeer:state-written-into-new-node-only", f.Pos(), n > 0 && bad == "", "the membership state is written into "+bad)
+}
